@@ -1,5 +1,5 @@
 ---------------------------- MODULE MC_Geometry ----------------------------
-(* (M) for the exact-geometry reference model itself (C02, C09, C14, C15):   *)
+(* (M) for the exact-geometry reference model itself (C02 C03 C09 C14 C15):   *)
 (* the clauses of the listed properties that are laws - not facts about one  *)
 (* input - are checked by TLC on the specification's own definitions, over   *)
 (* every pair of shapes of a small universe (points, segments, triangles in  *)
@@ -16,10 +16,12 @@
 (*   C14  twice the area is unchanged by the ring start and by reversal, the *)
 (*        orientation sign flips under reversal, the centroid is unchanged   *)
 (*        by ring start / reversal and lies in the span of the vertices      *)
+(*   C03  simplicity of a line and validity of a ring do not depend on the   *)
+(*        direction, the ring start, a translation or an axis reflection     *)
 (*   C15  the lineal boundary follows the mod-2 rule: closed lines have none,*)
 (*        an open line has its two end points; every boundary point of a     *)
 (*        shape relates to the shape as boundary                             *)
-EXTENDS Measures, Distance
+EXTENDS Measures, Distance, Validity
 CONSTANT N
 
 Pts == {<<x,y>> : x \in 0..N, y \in 0..N}
@@ -82,6 +84,17 @@ BoundaryLaws0 == /\ \A i \in 1..Len(a.lines) : (~IsOpenLine(a.lines[i]) => LineB
                        LineBoundary(Flat(<<>>, <<a.lines[i]>>, <<>>)) = {a.lines[i][1], a.lines[i][Len(a.lines[i])]})
                 /\ \A p \in LineBoundary(a) : Loc(a, H(p)) = "B"
                 /\ \A s \in AreaSegs(a) : Loc(a, H(s[1])) = "B"
+\* ---- C03: simplicity / validity do not depend on the direction, the ring start, an integer translation or an axis reflection
+Tr(l,dx,dy) == [i \in 1..Len(l) |-> <<l[i][1]+dx, l[i][2]+dy>>]
+Refl(l) == [i \in 1..Len(l) |-> <<N - l[i][1], l[i][2]>>]
+Swap(l) == [i \in 1..Len(l) |-> <<l[i][2], l[i][1]>>]
+ValidityLaws0 ==
+  /\ \A i \in 1..Len(a.lines) : LET l == a.lines[i] IN
+        /\ LineSimple(RevR(l)) = LineSimple(l) /\ LineSimple(Tr(l,3,-2)) = LineSimple(l)
+        /\ LineSimple(Refl(l)) = LineSimple(l) /\ LineSimple(Swap(l)) = LineSimple(l)
+        /\ (~IsOpenLine(l) /\ Len(l) = 4 => \A k \in 0..2 : LineSimple(Ring(<<l[1],l[2],l[3]>>,k)) = LineSimple(l))
+  /\ \A i \in 1..Len(a.areas) : LET r == a.areas[i][1] t == <<r[1],r[2],r[3]>> IN
+        \A k \in 0..2 : PolyValid(<<Ring(t,k)>>) /\ PolyValid(<<RevR(Ring(t,k))>>) /\ PolyValid(<<Tr(Ring(t,k),5,7)>>) /\ PolyValid(<<Refl(Ring(t,k))>>)
 \* the laws are stated about pairs
 TransposeLaw == ph = "first" \/ TransposeLaw0
 PredLaws == ph = "first" \/ PredLaws0
@@ -89,4 +102,5 @@ DimLaw == ph = "first" \/ DimLaw0
 DistLaws == ph = "first" \/ DistLaws0
 AreaLaws == ph = "first" \/ AreaLaws0
 BoundaryLaws == ph = "first" \/ BoundaryLaws0
+ValidityLaws == ph = "pair" \/ ValidityLaws0
 =============================================================================
